@@ -87,6 +87,43 @@ CLAIMED.update({
         design_ref='DESIGN.md §6 C11'),
 })
 
+CLAIMED.update({
+    'C03': dict(
+        text='Lean 4 model of the raw little-endian array dump and of the feature/match path arithmetic; theorems for every item '
+             'size, every shape incl. zero rows, every bit pattern: file size = rows x cols x item, byte k of element i is bits '
+             '8k.. of it, decode(encode) = identity with the same shape, image name recovered from the path / tar member, path '
+             'injective, image pair recovered from a matches path (string-search proof), generated separator border-free, code '
+             'locations/extensions/tar names equal those scraped from kapture_format.adoc. Tied by byte-for-byte correspondence '
+             '(all dtypes, layouts incl. big-endian views, file/tar/depth).',
+        note=COMMON_NOTE + 'numpy tofile/tobytes/fromfile/frombuffer and tarfile are modelled as raw dumps; image names are '
+             'normalised relative paths.',
+        technique='Lean 4 proof (induction on bytes/strings; decide on generated code and specification tables) + byte-exact '
+                  'differential correspondence',
+        design_ref='DESIGN.md §6 C03'),
+    'C08': dict(
+        text='Lean 4 model of equal_kapture over the list of compared attributes and the equal_sets shape GENERATED from '
+             'compare.py; theorems: table comparison true iff same key list and pairwise close values (so every add/remove/'
+             're-key/alter-beyond-closeness is seen), reflexive/symmetric given closeness is, equal_sets = set equality, '
+             'collections equal iff same types/configs/members, symmetric, whole comparison = conjunction over compared parts, '
+             'every part is compared except at most records_depth (known finding D6). Tied by correspondence on single-entry '
+             'mutations of all 18 parts on either side.',
+        note=COMMON_NOTE + 'closeness (1e-5 pose distances, numpy.isclose) is a parameter of the model; the harness evaluates it '
+             'from the stated tolerances and stays a factor 4 away from thresholds (numpy.isclose asymmetry band).',
+        technique='Lean 4 proof (iff-characterisations by induction; decide on generated list) + mutation-based differential '
+                  'correspondence',
+        design_ref='DESIGN.md §6 C08'),
+    'C12': dict(
+        text='Lean 4 model of a feature archive as an append-only log (TarHandler content = last occurrence); theorems for any '
+             'archive and any kill point: an append is visible and latest, other names unaffected; archive read = directory form; '
+             'packing a folder changes no name and no bytes; after a kill following the k-th completed append every one of the k '
+             'appends is visible as latest (and nothing later); length law (512 + padded data per member). Tied by correspondence '
+             'with a REAL writer process SIGKILLed after each k, file length compared, and by dir-vs-tar loads of real datasets.',
+        note=COMMON_NOTE + 'PARTIAL: that flushed bytes survive SIGKILL is an OS fact observed on every run, not proved; tarfile '
+             'framing is trusted; k=0 leaves an empty file tarfile refuses to open (nothing was appended).',
+        technique='Lean 4 proof on the append-log model + crash-point correspondence with real process kills',
+        design_ref='DESIGN.md §6 C12'),
+})
+
 NOT_YET = {
 }
 
